@@ -395,6 +395,11 @@ class Gen:
         x = r.random()
         if x < 0.2:
             return r.choice(['.', '..', '/', '../..', './a', '/usr/bin/x', 'a/./b/../c', '../../../x'])
+        if x < 0.3:
+            # complete components that end at or near the end of an SL record (the boundary moves
+            # with the room the record has left, i.e. with the entry's own name)
+            first = r.choice(list(range(88, 100)) + list(range(120, 135)) + [150, 200, 247, 248, 249, 250])
+            return 'a' * first + '/' + 'b' * r.choice([1, 30, 120, 250]) + r.choice(['', '/c', '/c/d'])
         comps = []
         if r.random() < 0.3:
             comps.append('')  # leading slash -> absolute
